@@ -86,8 +86,14 @@ def query_lines(p, rng, n_filters=2, dirs=(0, 1, 2, 3), unks=(0, 1, 2, 3), flink
         r = rng.getrandbits(63)
         r = r - r % 7 + 3
         return str(r + 7 if r % 5 == 2 else r)
+    def reentrant():    # k % 11 == 4 : a read-only callback that queries the library while it is being consulted
+        r = rng.getrandbits(63)
+        r = r - r % 11 + 4
+        while r % 5 == 2 or r % 7 == 3:
+            r += 11
+        return str(r)
     masks = ["-"] + [str(rng.getrandbits(64)) for _ in range(n_filters)] + ["0", str(2 ** 64 - 1), short(), short(), short(),
-                                                                             plain(), plain()]
+                                                                             plain(), plain(), reentrant()]
     out = []
     for v in p.verts():
         if not flinks:
@@ -333,6 +339,15 @@ class C05(Check):
         lines = []
         mask = "12297829382473034410"
         for v in p.verts():
+            if rng.random() < 0.5:
+                # FIRST (memos possibly cold): a read-only filter that calls neighbors() on the vertex being expanded
+                # while it is consulted (k % 11 == 4); then the plain query whose memo slot the nested call used
+                e = rng.getrandbits(62)
+                e = e - e % 11 + 4
+                while e % 5 == 2 or e % 7 == 3:
+                    e += 11
+                lines.append("nbrs %s %d 1 %d" % (v, rng.choice([0, 2]), e))
+                lines.append("nbrs %s 1 1 -" % v)
             for d, u, m in AUDIT_KEYS:
                 lines.append("nbrs %s %d %d %s" % (v, d, u, "-" if m == "-" else mask))
             # two different SHORT-LIVED filter objects (k % 5 == 2) under the same other arguments, back to back
